@@ -59,8 +59,10 @@ type Case struct {
 	// CompressOff: compress.enable is false (and the threshold huge) while a compressor type is configured:
 	// whatever the writer decides to do, the context it records must let the reader get the log back
 	CompressOff bool `json:"compress_off,omitempty"`
-	Logs       []Log  `json:"logs,omitempty"`
-	Data       []byte `json:"data,omitempty"` // compressor layer
+	// Reconfigured: between the flush and the read the process is configured with the other serializer and another compressor
+	Reconfigured bool   `json:"reconfigured,omitempty"`
+	Logs         []Log  `json:"logs,omitempty"`
+	Data         []byte `json:"data,omitempty"` // compressor layer
 }
 
 // goKind is the Go value kind the AT row scanner (baseExecutor.GetScanSlice + getSqlNullValue) yields
@@ -404,6 +406,14 @@ func runCase(c Case) *pt.Failure {
 			}
 			ctxCol, _ := conn.args[2].([]byte)
 			info, _ := conn.args[3].([]byte)
+			if c.Reconfigured {
+				// the process is reconfigured between phase one and rollback (other serializer, other compressor):
+				// the context stored beside the log decides how it is read, not the current configuration
+				other := map[string]string{"json": "protobuf", "protobuf": "json"}[c.Serializer]
+				otherComp := map[bool]string{true: "Gzip", false: "None"}[c.Compress == "" || c.Compress == "None" || c.CompressOff]
+				undo.InitUndoConfig(undo.Config{DataValidation: true, LogSerialization: other, LogTable: "undo_log", OnlyCareUpdateColumns: true,
+					CompressConfig: undo.CompressConfig{Enable: otherComp != "None", Type: otherComp, Threshold: "0"}})
+			}
 			got, err := m.DecodeForVerif(ctxCol, info)
 			if err != nil {
 				return pt.Failf("C08/pipeline/"+c.Serializer+"/compress="+c.Compress+"/decode-error", "what phase one wrote (context %q, %d bytes) cannot be read by rollback: %v", ctxCol, len(info), err)
@@ -593,7 +603,8 @@ func TestPropParserRoundTrip(t *testing.T) {
 func TestPropPipeline(t *testing.T) {
 	ctx.Check(t, func(rt *rapid.T) {
 		c := Case{Layer: "pipeline", Serializer: rapid.SampledFrom([]string{"json", "protobuf"}).Draw(rt, "serializer"),
-			Compress: rapid.SampledFrom(compressTypes).Draw(rt, "compress"), Logs: drawLogs(rt), CompressOff: rapid.IntRange(0, 3).Draw(rt, "compressOff") == 0}
+			Compress: rapid.SampledFrom(compressTypes).Draw(rt, "compress"), Logs: drawLogs(rt), CompressOff: rapid.IntRange(0, 3).Draw(rt, "compressOff") == 0,
+			Reconfigured: rapid.IntRange(0, 3).Draw(rt, "reconfigured") == 0}
 		// FlushUndoLog skips transactions without any imaged row: make sure there is one
 		has := false
 		for _, l := range c.Logs {
